@@ -259,28 +259,25 @@ impl Backend {
         line: usize,
         param_name: &str,
     ) -> Option<Vec<Range>> {
-        let content = self.fixture_db.file_cache.get(file_path)?;
-        let lines: Vec<&str> = content.lines().collect();
-
-        // Get the line (0-indexed internally, but definition.line is 1-indexed)
-        let line_content = lines.get(line.saturating_sub(1))?;
-
-        // Find the parameter in the line
-        if let Some(start) = line_content.find(param_name) {
-            let lsp_line = Self::internal_line_to_lsp(line);
-            let range = Range {
-                start: Position {
-                    line: lsp_line,
-                    character: start as u32,
-                },
-                end: Position {
-                    line: lsp_line,
-                    character: (start + param_name.len()) as u32,
-                },
-            };
-            return Some(vec![range]);
-        }
-
-        None
+        // The analyzer records every fixture parameter as a usage with its exact span.
+        // Searching the text of the `def` line for the name would also find it inside
+        // `def` / `async`, inside the function's own name or inside another parameter
+        // (`d`, `fx`, `db` in `def fx_db(db_url, db, d)`), and never on wrapped signatures.
+        let usages = self.fixture_db.usages.get(file_path)?;
+        let usage = usages
+            .iter()
+            .filter(|u| u.name == param_name && u.line >= line)
+            .min_by_key(|u| u.line)?;
+        let lsp_line = Self::internal_line_to_lsp(usage.line);
+        Some(vec![Range {
+            start: Position {
+                line: lsp_line,
+                character: usage.start_char as u32,
+            },
+            end: Position {
+                line: lsp_line,
+                character: usage.end_char as u32,
+            },
+        }])
     }
 }
